@@ -755,9 +755,6 @@ func runH1(sp h1spec, kind string, pos int, racy bool) (o obs) {
 	}
 
 	// ----- epilogue: let everything that was started finish -----
-	if r.body != nil {
-		r.body.markStop()
-	}
 	dl.openAll()
 	peer.takeoverAll()
 	// quiescence: every library goroutine left belongs to an idle pooled connection
@@ -792,6 +789,7 @@ func runH1(sp h1spec, kind string, pos int, racy bool) (o obs) {
 		}
 	}
 	if r.body != nil {
+		r.body.markStop() // everything that worked for the request has ended: no Read may follow
 		settle(func() bool { return r.body.closes.Load() > 0 })
 		o.ReqBodyClosed = r.body.closes.Load() > 0
 		time.Sleep(20 * time.Millisecond)
